@@ -240,3 +240,92 @@ impl BitSink for UnitErrSink {
         Ok(())
     }
 }
+
+/// What the sink of a real program reports: an `std::io::Error` (the kind varies with the operation index:
+/// `Interrupted`, `WouldBlock`, `BrokenPipe` - the first two look transient, and the library must not act on that).
+pub fn io_error_for(k: usize) -> std::io::Error {
+    std::io::Error::from(match k % 3 {
+        0 => std::io::ErrorKind::Interrupted,
+        1 => std::io::ErrorKind::WouldBlock,
+        _ => std::io::ErrorKind::BrokenPipe,
+    })
+}
+
+/// Minimal user sink whose error type is `std::io::Error` itself.
+#[derive(Clone, Debug, Default)]
+pub struct IoErrSink(pub Core);
+
+impl BitSink for IoErrSink {
+    type Error = std::io::Error;
+
+    fn align_to_byte(&mut self) -> Result<usize, Self::Error> {
+        self.0.gate(0).map_err(|e| io_error_for(e.k))?;
+        Ok(self.0.model.align())
+    }
+    fn write_lsbs<T: Bits>(&mut self, val: T, n: usize) -> Result<(), Self::Error> {
+        self.0.gate(1).map_err(|e| io_error_for(e.k))?;
+        self.0.model.push_lsbs(to_u64(val), n);
+        Ok(())
+    }
+    fn write_msbs<T: Bits>(&mut self, val: T, n: usize) -> Result<(), Self::Error> {
+        self.0.gate(2).map_err(|e| io_error_for(e.k))?;
+        self.0.model.push_msbs(to_u64(val), width::<T>(), n);
+        Ok(())
+    }
+    fn write<T: Bits>(&mut self, val: T) -> Result<(), Self::Error> {
+        self.0.gate(3).map_err(|e| io_error_for(e.k))?;
+        self.0.model.push_msbs(to_u64(val), width::<T>(), width::<T>());
+        Ok(())
+    }
+}
+
+/// A user error type that wraps an `std::io::Error` and exposes it through `source()`.
+#[derive(Debug)]
+pub struct WrappedIo {
+    pub inner: std::io::Error,
+}
+
+impl fmt::Display for WrappedIo {
+    fn fmt(&self, f: &mut fmt::Formatter<'_>) -> fmt::Result {
+        write!(f, "sink failed: {}", self.inner)
+    }
+}
+impl std::error::Error for WrappedIo {
+    fn source(&self) -> Option<&(dyn std::error::Error + 'static)> {
+        Some(&self.inner)
+    }
+}
+
+/// Minimal user sink whose error wraps an `std::io::Error` of kind `Interrupted`.
+#[derive(Clone, Debug, Default)]
+pub struct WrappedIoSink(pub Core);
+
+impl WrappedIoSink {
+    fn err() -> WrappedIo {
+        WrappedIo { inner: std::io::Error::from(std::io::ErrorKind::Interrupted) }
+    }
+}
+
+impl BitSink for WrappedIoSink {
+    type Error = WrappedIo;
+
+    fn align_to_byte(&mut self) -> Result<usize, Self::Error> {
+        self.0.gate(0).map_err(|_| Self::err())?;
+        Ok(self.0.model.align())
+    }
+    fn write_lsbs<T: Bits>(&mut self, val: T, n: usize) -> Result<(), Self::Error> {
+        self.0.gate(1).map_err(|_| Self::err())?;
+        self.0.model.push_lsbs(to_u64(val), n);
+        Ok(())
+    }
+    fn write_msbs<T: Bits>(&mut self, val: T, n: usize) -> Result<(), Self::Error> {
+        self.0.gate(2).map_err(|_| Self::err())?;
+        self.0.model.push_msbs(to_u64(val), width::<T>(), n);
+        Ok(())
+    }
+    fn write<T: Bits>(&mut self, val: T) -> Result<(), Self::Error> {
+        self.0.gate(3).map_err(|_| Self::err())?;
+        self.0.model.push_msbs(to_u64(val), width::<T>(), width::<T>());
+        Ok(())
+    }
+}
